@@ -1694,8 +1694,25 @@ func (m RadioTap) SerializeTo(b gopacket.SerializeBuffer, opts gopacket.Serializ
 
 	// save length encoding for the end when it's easier to know how long everything is
 
+	// room makes sure that n more bytes fit behind offset, which is 16 bits
+	// wide like the header length.
+	room := func(offset uint16, n int) error {
+		if int(offset)+n > 0xffff {
+			return errors.New("RadioTap header does not fit the 16 bit length")
+		}
+		if int(offset)+n > len(buf) {
+			buf = append(buf, make([]byte, int(offset)+n-len(buf))...)
+		}
+		return nil
+	}
+	// a radio tap namespace takes at most 106 bytes, alignment included
+	const radioTapNamespaceMaxLen = 128
+
 	// encode full present bitmap
 	offset := uint16(4)
+	if err := room(offset, 4*len(m.Present)); err != nil {
+		return err
+	}
 	for _, present := range m.Present {
 		binary.LittleEndian.PutUint32(buf[offset:offset+4], uint32(present))
 		offset += 4
@@ -1709,10 +1726,27 @@ func (m RadioTap) SerializeTo(b gopacket.SerializeBuffer, opts gopacket.Serializ
 	vendorNamespaceIndex := 0
 	for _, present := range m.Present {
 		if radioTapNamespace {
+			if radioTapNamespaceIndex >= len(m.RadioTapValues) {
+				return fmt.Errorf("RadioTap present words announce more than the %d radio tap namespaces in RadioTapValues", len(m.RadioTapValues))
+			}
+			if err := room(offset, radioTapNamespaceMaxLen); err != nil {
+				return err
+			}
 			offset = m.RadioTapValues[radioTapNamespaceIndex].serializeTo(buf, offset, present)
 			radioTapNamespaceIndex += 1
 		} else if vendorNamespace {
-			offset = m.VendorValues[vendorNamespaceIndex].serializeTo(buf, offset, present)
+			if vendorNamespaceIndex >= len(m.VendorValues) {
+				return fmt.Errorf("RadioTap present words announce more than the %d vendor namespaces in VendorValues", len(m.VendorValues))
+			}
+			v := m.VendorValues[vendorNamespaceIndex]
+			if len(v.OUI) < 3 {
+				return fmt.Errorf("RadioTap vendor namespace OUI has %d bytes, must have 3", len(v.OUI))
+			}
+			// alignment, 8 bytes of namespace header and the contents
+			if err := room(offset, 1+8+int(v.SkipLength)); err != nil {
+				return err
+			}
+			offset = v.serializeTo(buf, offset, present)
 			vendorNamespaceIndex += 1
 		} else {
 			// TODO: this library does not yet handle fields defined on bits higher than 31, just break for now
